@@ -24,6 +24,11 @@ var c20Atoms = []link.Seg{
 	{Raw: "Ünï", Dec: "Ünï"}, {Raw: "ЖУК", Dec: "ЖУК"}, {Raw: "", Dec: ""}, {Raw: "a%2Fb", Dec: "a/b", Odd: true},
 	{Raw: "%zz", Dec: "", Odd: true}, {Raw: "x", Dec: "x"}, {Raw: "JOINCHAT", Dec: "JOINCHAT"}, {Raw: "%", Dec: "", Odd: true},
 	{Raw: "a:b", Dec: "a:b", Odd: true}, {Raw: "..", Dec: "..", Odd: true}, {Raw: "a;b", Dec: "a;b", Odd: true},
+	// characters that mean something in OTHER parts of a URL or in other encodings of it, but are themselves in a path;
+	// escapes of the escape character (decoded once, like every other escape)
+	{Raw: "AAAA+BBBB", Dec: "AAAA+BBBB"}, {Raw: "C++", Dec: "C++"}, {Raw: "a%2Bb", Dec: "a+b"}, {Raw: "100%2525", Dec: "100%25"},
+	{Raw: "a%252Fb", Dec: "a%2Fb"}, {Raw: "%2541", Dec: "%41"}, {Raw: "a-b.c~d", Dec: "a-b.c~d"}, {Raw: "a=b&c", Dec: "a=b&c"}, {Raw: "a@b", Dec: "a@b"},
+	{Raw: "a!b*c'd(e)", Dec: "a!b*c'd(e)"}, {Raw: "a,b$c", Dec: "a,b$c"}, {Raw: "%2B%2B", Dec: "++"},
 }
 
 func c20Paths() [][]link.Seg {
@@ -36,6 +41,9 @@ func c20Paths() [][]link.Seg {
 		for _, b := range c20Atoms[:12] {
 			out = append(out, []link.Seg{a, b})
 		}
+	}
+	for _, b := range c20Atoms[17:] {
+		out = append(out, []link.Seg{c20Atoms[2], b}, []link.Seg{c20Atoms[0], b}) // joinchat/<token>, user/<x>
 	}
 	for _, a := range []int{0, 2, 8} {
 		for _, b := range []int{0, 2, 3, 8} {
